@@ -128,6 +128,7 @@ class Gen:
     def __init__(self):
         self.out = []
         self.reg = []
+        self.pairs = []
         self.helper_fns = set()
 
     def w(self, s=""):
@@ -392,7 +393,8 @@ class Gen:
             "use crate::val::*;",
             "use savefile::prelude::*;",
             "use savefile::{AbiRemoved, Removed};",
-            "use savefile_derive::Savefile;",
+            "use savefile_derive::{savefile_abi_exportable, Savefile};",
+            "use crate::abicall::AbiPair;",
             "",
         ]
         for k, c in CONVS.items():
@@ -402,6 +404,9 @@ class Gen:
         tail = ["pub fn registry() -> Vec<Entry> {", "    let mut v: Vec<Entry> = Vec::new();"]
         tail += lib_entries
         tail += self.reg
+        tail += ["    v", "}"]
+        tail += ["", "pub fn abi_pairs() -> Vec<AbiPair> {", "    let mut v: Vec<AbiPair> = Vec::new();"]
+        tail += self.pairs
         tail += ["    v", "}"]
         return "\n".join(head + self.out + tail) + "\n"
 
@@ -626,7 +631,46 @@ def main():
                 g.emit_item(t, prefix=mod + "_")
                 if t.name == "T":
                     g.register("%s::%s" % (mod, t.name), "%s_%s" % (mod, t.name), t, family=(fam, k))
+            if fam in downgradable:
+                # the same interface at this version of the family, and an implementation that reports what it saw
+                g.w("#[savefile_abi_exportable(version = %d)]" % k)
+                g.w("pub trait Iface {")
+                g.w("    fn echo(&self, a: T, b: &T, seed: u64) -> T;")
+                g.w("    fn twice(&self, a: &T, b: T) -> (T, T);")
+                if k >= 1:
+                    g.w("    fn added_v1(&self, x: u32) -> u32;")
+                g.w("}")
+                g.w("pub struct Impl;")
+                g.w("impl Iface for Impl {")
+                g.w("    fn echo(&self, a: T, b: &T, seed: u64) -> T {")
+                g.w("        let mut r = Rng::new(seed);")
+                g.w("        let ret = T::gen(&mut r, 6);")
+                g.w("        crate::abicall::observe(vec![a.sx(true), b.sx(true)], vec![ret.sx(false)]);")
+                g.w("        ret")
+                g.w("    }")
+                g.w("    fn twice(&self, a: &T, b: T) -> (T, T) {")
+                g.w("        let mut r = Rng::new(7);")
+                g.w("        let r1 = T::gen(&mut r, 4);")
+                g.w("        let r2 = T::gen(&mut r, 9);")
+                g.w("        crate::abicall::observe(vec![a.sx(true), b.sx(true)], vec![r1.sx(false), r2.sx(false)]);")
+                g.w("        (r1, r2)")
+                g.w("    }")
+                if k >= 1:
+                    g.w("    fn added_v1(&self, x: u32) -> u32 { x.wrapping_add(1) }")
+                g.w("}")
+                for i in range(nver):
+                    pass
             g.w("}")
+        if fam in downgradable:
+            for i in range(nver):
+                for j in range(nver):
+                    mi, mj = "%s_v%d" % (fam, i), "%s_v%d" % (fam, j)
+                    g.pairs.append(
+                        '    v.push(AbiPair { fam: "%s", i: %d, j: %d, run: |r| crate::abicall::run_pair::<dyn %s::Iface, %s::T, %s::T>("%s", %d, %d, '
+                        '|| unsafe { savefile_abi::AbiConnection::<dyn %s::Iface>::from_boxed_trait_for_test(<dyn %s::Iface as savefile_abi::AbiExportable>::ABI_ENTRY, Box::new(%s::Impl) as Box<dyn %s::Iface>) }, '
+                        '|c, a, b, s| %s::Iface::echo(c, a, b, s), |c, a, b| %s::Iface::twice(c, a, b), %s, r) });'
+                        % (fam, i, j, mi, mi, mj, fam, i, j, mi, mj, mj, mj, mi, mi,
+                           ("Some(|c, x| %s::Iface::added_v1(c, x))" % mi) if i >= 1 else "None"))
     src = g.finish(lib_entries())
     old = open(OUT).read() if os.path.exists(OUT) else None
     if old != src:
